@@ -40,6 +40,12 @@ CHECKS = {
  "C07": dict(technique="Lean 4 proofs of the counting statements and of 'passes iff k = n' for every n,k + correspondence + arithmetic oracle on systematic families",
    text="Theorems C07_unsatisfied_one_failure, C07_times_check, C07_never_tally, C07_never_violated, C07_always_silent, C07_unexpected, C07_decl_after_always/never, C07_times_iff (Props/C07.lean); tie: systematic times(n) x calls x mode families judged by an independent arithmetic oracle, plus the C06 histories, on the real mocks.c.",
    ref="§6 C07"),
+ "C05": dict(technique="Lean 4 proofs that each comparator (modelled as the C writes it: strstr/strcmp/int and unsigned intermediates, signed 64-bit words) equals the documented relation + exhaustive/boundary differential through the real macros in C and C++",
+   text="Theorems C05_equal, C05_greater, C05_less, C05_null, C05_truth, C05_legacy_int, C05_trichotomy, C05_string_equal, C05_contains, C05_begins, C05_ends, C05_string_negations, C05_contents, C05_contents_offset (Props/C05.lean) for all 64-bit operands, all byte strings (explicit length guards) and all blocks/sizes; tie: every public constraint macro and legacy assertion is executed through the real headers (C build and C++ build with std::string overloads, ASan/UBSan) on a 32/64-bit boundary grid squared, all string pairs over {a,b,%} up to a length, random longer strings and all memory sizes x difference offsets, compared with the model and an independent oracle.",
+   ref="§6 C05"),
+ "C15": dict(technique="Lean 4 + Mathlib proofs over exact rationals of one generic algorithm + bit-for-bit differential of its binary64 instance against the C + exact-rational oracle",
+   text="Theorems C15_symmetric, C15_reflexive, C15_complement, C15_monotone, C15_upper, C15_lower, C15_less_accepts/rejects, C15_greater_accepts/rejects (Props/C15.lean) about the exact instance, assuming only the defining property of floor(log10); tie: the same generic definitions instantiated at Lean's Float (C double + libm) must agree bit for bit with the C on every generated pair (all exponents, subnormals, signed zeros, neighbours of powers of ten, 1-ulp neighbours, opposite signs; 1-15 figures; assert_that_double, legacy forms, mock constraints); the laws are judged on the implementation's answers with exact rational arithmetic.",
+   ref="§6 C15"),
 }
 MOCK_NOTE = ("Trusted: Lean kernel, harness/mock_ops.c and the CGREEN_VERIF queue-dump hook, the generators in harness/mock_checks.py. Modelled, not verified: parameter "
              "constraints are integer eq/ne/lt/gt clauses on up to three parameters, return values are integers; side effects, content setters, "
